@@ -12,18 +12,22 @@ TECHNIQUE = "Hypothesis-generated representations per entry point (container x d
 ASSUMPTIONS = [
     "update: fit and update use containers of the same kind (arrays = default-index frames; pandas objects with an index that continues the training index and the same column labels); mixing Series and DataFrame between fit and update is outside the domain (pandas alignment changes the numbers)",
     "int64 representations are used only for integer-valued data",
+    "update with pandas data: unique column labels and a strictly increasing index (pandas alignment in update); every other entry point also gets repeated time stamps and a repeated column label",
     "the documented not-PD RuntimeError is accepted if it also occurs in the canonical run",
 ]
 
 SCORE_DETECTORS = ("PELT", "MovingWindow", "CAPA", "MVCAPA")
 
 
+ALL_INDEX_KINDS = D.INDEX_KINDS + D.REPEAT_INDEX_KINDS
+
+
 @st.composite
-def repr_spec(draw, p, integral, index_kinds=D.INDEX_KINDS):
+def repr_spec(draw, p, integral, index_kinds=ALL_INDEX_KINDS, column_kinds=D.COLUMN_KINDS):
     containers = ["DataFrame", "ndarray2d"] + (["Series", "ndarray1d"] if p == 1 else [])
     return {"container": draw(st.sampled_from(containers)),
             "dtype": draw(st.sampled_from(["int64", "float64"])) if integral else "float64",
-            "index": draw(D.index_spec(index_kinds)), "columns": draw(st.sampled_from(["default", "strings"]))}
+            "index": draw(D.index_spec(index_kinds)), "columns": draw(st.sampled_from(column_kinds))}
 
 
 def represent(X, r, offset=0):
@@ -40,17 +44,25 @@ def represent(X, r, offset=0):
         return arr[:, 0]
     idx = D.build_index(r["index"], n + offset)[offset:]
     if r["container"] == "Series":
-        return pd.Series(arr[:, 0], index=idx, name="x" if r["columns"] == "strings" else None)
-    cols = [f"v{chr(97 + j)}" for j in range(p)] if r["columns"] == "strings" else list(range(p))
-    return pd.DataFrame(arr, index=idx, columns=cols)
+        return pd.Series(arr[:, 0], index=idx, name=None if r["columns"] == "default" else D.column_labels(r["columns"], 1)[0])
+    return pd.DataFrame(arr, index=idx, columns=D.column_labels(r["columns"], p))
 
 
-def own_index(obj, n):
+def own_index(r, n):
+    """A fresh copy of the index `represent(X, r)` carries (a snapshot: the object handed over might get modified)."""
     import pandas as pd
 
-    if isinstance(obj, (pd.Series, pd.DataFrame)):
-        return obj.index
+    if r["container"] in ("Series", "DataFrame"):
+        return D.build_index(r["index"], n)
     return pd.RangeIndex(n)
+
+
+def check_caller_index(obj, r, n, what):
+    import pandas as pd
+
+    if isinstance(obj, (pd.Series, pd.DataFrame)) and not D.same_index(obj.index, own_index(r, n)):
+        raise Violation(f"{what} modified the index of the caller's data", now=str(obj.index[:3]), now_names=str(list(obj.index.names)),
+                        before_names=str(list(own_index(r, n).names)), repr=r)
 
 
 def canonical(X, offset=0):
@@ -78,12 +90,11 @@ def cases(draw, tier, det):
     n = draw(st.integers(n_min, max(n_min, nmax)))
     integral = draw(st.sampled_from([True, False]))
     bw = params.get("bandwidth", params.get("min_segment_length", 1))
-    X, _ = draw(D.structured_matrix(n, p, exact=integral, boundary_positions=(bw, n - bw)))
-    case = {"detector": det, "params": params, "X": X, "integral": integral}
+    case = {"detector": det, "params": params, "X": None, "integral": integral}
+    # structural choices first, bulk data last (see strategies/data.py)
+    n2 = nt = None
     if draw(st.integers(0, 2)) == 0:
         n2 = draw(st.integers(1, 8))
-        X2, _ = draw(D.structured_matrix(n2, p, exact=integral, max_shifts=1, max_spikes=1, max_bumps=1))
-        case["X_update"] = X2
         mode = draw(st.sampled_from(["pandas", "arrays"]))
         if mode == "arrays":
             containers = ["ndarray2d"] + (["ndarray1d"] if p == 1 else [])
@@ -92,7 +103,7 @@ def cases(draw, tier, det):
                  "index": {"kind": "range0"}, "columns": "default"}
             r2 = dict(r, container=draw(st.sampled_from(containers)))
         else:
-            r = draw(repr_spec(p, integral))
+            r = draw(repr_spec(p, integral, D.INDEX_KINDS, D.UNIQUE_COLUMN_KINDS))  # pandas alignment needs unique labels
             r["container"] = draw(st.sampled_from(["DataFrame"] + (["Series"] if p == 1 else [])))
             r2 = dict(r, dtype=draw(st.sampled_from(["float64", "int64"])) if integral else "float64")
         case["update_mode"] = mode
@@ -101,10 +112,18 @@ def cases(draw, tier, det):
         case["reprs"] = {"fit": draw(repr_spec(p, integral))}
     if draw(st.integers(0, 3)) == 0:
         nt = draw(st.integers(n_min, max(n_min, nmax)))
-        Xt, _ = draw(D.structured_matrix(nt, p, exact=integral, boundary_positions=(bw, nt - bw)))
-        case["X_test"] = Xt
+    fit_r = case["reprs"]["fit"]
     for ep in ("predict", "transform", "scores"):
-        case["reprs"][ep] = draw(repr_spec(p, integral))
+        r = draw(repr_spec(p, integral))
+        if p > 1 and fit_r["container"] == r["container"] == "DataFrame" and fit_r["columns"] in D.UNIQUE_COLUMN_KINDS \
+                and draw(st.integers(0, 2)) == 0:
+            r["columns"] = "rev:" + fit_r["columns"]  # the training labels in the opposite order: data are matched by position
+        case["reprs"][ep] = r
+    case["X"], _ = draw(D.structured_matrix(n, p, exact=integral, boundary_positions=(bw, n - bw)))
+    if n2 is not None:
+        case["X_update"], _ = draw(D.structured_matrix(n2, p, exact=integral, max_shifts=1, max_spikes=1, max_bumps=1))
+    if nt is not None:
+        case["X_test"], _ = draw(D.structured_matrix(nt, p, exact=integral, boundary_positions=(bw, nt - bw)))
     return case
 
 
@@ -116,7 +135,10 @@ def run_history(case, canonical_run):
     n_train = len(X)
     R = case["reprs"]
     out = {}
-    det.fit(canonical(X) if canonical_run else represent(X, R["fit"]))
+    obj = canonical(X) if canonical_run else represent(X, R["fit"])
+    det.fit(obj)
+    if not canonical_run:
+        check_caller_index(obj, R["fit"], len(X), "fit")
     if "X_update" in case:
         if canonical_run:
             off = 0 if case["update_mode"] == "arrays" else n_train
@@ -129,18 +151,24 @@ def run_history(case, canonical_run):
             out[attr] = float(getattr(det, attr))
     obj = canonical(Xt) if canonical_run else represent(Xt, R["predict"])
     out["predict"] = sparse_signature(det.predict(obj))
+    if not canonical_run:
+        check_caller_index(obj, R["predict"], len(Xt), "predict")
     obj = canonical(Xt) if canonical_run else represent(Xt, R["transform"])
     dense = det.transform(obj)
     out["dense_values"] = dense.to_numpy().tolist()
     out["dense_index"] = dense.index
-    out["dense_index_expected"] = own_index(obj, len(Xt))
+    out["dense_index_expected"] = obj.index if canonical_run else own_index(R["transform"], len(Xt))
+    if not canonical_run:
+        check_caller_index(obj, R["transform"], len(Xt), "transform")
     out["dense_ncols"] = dense.shape[1]
     if case["detector"] in SCORE_DETECTORS:
         obj = canonical(Xt) if canonical_run else represent(Xt, R["scores"])
         sc = det.transform_scores(obj)
         out["scores"] = np.asarray(sc, dtype=float).reshape(-1).tolist()
         out["scores_index"] = sc.index
-        out["scores_index_expected"] = own_index(obj, len(Xt))
+        out["scores_index_expected"] = obj.index if canonical_run else own_index(R["scores"], len(Xt))
+        if not canonical_run:
+            check_caller_index(obj, R["scores"], len(Xt), "transform_scores")
     return out
 
 
@@ -165,14 +193,14 @@ def check(case):
     if got["dense_values"] != want["dense_values"]:
         raise Violation("transform's labels depend on how the same numbers are passed in", reprs=case["reprs"],
                         canonical=[r[0] for r in want["dense_values"]], got=[r[0] for r in got["dense_values"]])
-    if not got["dense_index"].equals(got["dense_index_expected"]):
+    if not D.same_index(got["dense_index"], got["dense_index_expected"]):
         raise Violation("transform's output does not carry X's own index", got=str(got["dense_index"][:4]),
                         expected=str(got["dense_index_expected"][:4]), repr=case["reprs"]["transform"])
     if "scores" in want:
         a, b = np.asarray(want["scores"]), np.asarray(got["scores"])
         if a.shape != b.shape or not np.allclose(a, b, rtol=1e-9, atol=1e-9 * (1 + np.abs(a).max())):
             raise Violation("transform_scores depends on how the same numbers are passed in", reprs=case["reprs"])
-        if not got["scores_index"].equals(got["scores_index_expected"]):
+        if not D.same_index(got["scores_index"], got["scores_index_expected"]):
             raise Violation("transform_scores' output does not carry X's own index", got=str(got["scores_index"][:4]),
                             expected=str(got["scores_index_expected"][:4]), repr=case["reprs"]["scores"])
     R = case["reprs"]
@@ -185,8 +213,18 @@ def check(case):
         classes.append(f"update_mode={case['update_mode']}")
     if any(r["dtype"] == "int64" for r in R.values()):
         classes.append("int64")
-    if any(r["index"]["kind"].startswith(("datetime", "period")) and r["container"] in ("DataFrame", "Series") for r in R.values()):
+    pandas_reprs = [r for r in R.values() if r["container"] in ("DataFrame", "Series")]
+    if any(r["index"]["kind"].startswith(("datetime", "period")) for r in pandas_reprs):
         classes.append("time_index")
+    if any(r["index"]["kind"] in D.REPEAT_INDEX_KINDS for r in pandas_reprs):
+        classes.append("repeated_index_label")
+    if any(r["index"].get("name") for r in pandas_reprs):
+        classes.append("named_index")
+    frames = {ep: r["columns"] for ep, r in R.items() if r["container"] == "DataFrame"}
+    for kind in sorted(set(frames.values())):
+        classes.append(f"columns={kind}")
+    if any(v.startswith("rev:") for v in frames.values()):
+        classes.append("same_labels_other_order_than_fit")
     has_event = bool(want["predict"]["events"])
     if has_event:
         classes.append("has_detection")
@@ -214,11 +252,8 @@ def scorer_cases(draw, tier):
     ms = K.scorer_min_size(spec, p)
     n = draw(st.integers(max(2 * ms + 2, 6), 30))
     integral = draw(st.sampled_from([True, False]))
-    X = draw(D.exact_matrix(n, p, dyadic=False)) if integral else draw(D.generic_matrix(n, p))
     squared_error_family = "Gaussian" not in str(spec)
-    if integral and squared_error_family and draw(st.integers(0, 3)) == 0:
-        # large counts: still exactly representable in both dtypes (sums of squares stay below 2^63 and 2^53 x 1e3)
-        X = [[(v + 10) * 2e7 for v in row] for row in X]  # positive counts of order 1e8: sums of ~20 rows exceed 2^31.5
+    large = integral and squared_error_family and draw(st.integers(0, 3)) == 0
     k = {"CUSUM": 3, "ChangeScore": 3, "LocalAnomalyScore": 4}.get(spec["cls"], 2)
     cuts = []
     for _ in range(draw(st.integers(1, 5))):
@@ -234,8 +269,15 @@ def scorer_cases(draw, tier):
             a = draw(st.integers(s + max(1, ms), n - ms - 1))
             b = draw(st.integers(a + ms, n - 1))
             cuts.append([s, a, b, draw(st.integers(b + 1, n))])
-    return {"scorer": spec, "X": X, "integral": integral, "cuts": cuts, "repr": draw(repr_spec(p, integral)),
+    case = {"scorer": spec, "X": None, "integral": integral, "cuts": cuts, "repr": draw(repr_spec(p, integral)),
             "cuts_as": draw(st.sampled_from(["int64", "list", "int32"]))}
+    # bulk data last (see strategies/data.py)
+    X = draw(D.exact_matrix(n, p, dyadic=False)) if integral else draw(D.generic_matrix(n, p))
+    if large:
+        # large counts: still exactly representable in both dtypes (sums of squares stay below 2^63 and 2^53 x 1e3)
+        X = [[(v + 10) * 2e7 for v in row] for row in X]  # positive counts of order 1e8: sums of ~20 rows exceed 2^31.5
+    case["X"] = X
+    return case
 
 
 def check_scorer(case):
@@ -250,7 +292,9 @@ def check_scorer(case):
             return {"nontrivial": False, "classes": ["not_pd_error_in_canonical_run"]}
         raise
     with sut("scorer fit/evaluate with generated representation"):
-        got = np.asarray(K.build(case["scorer"]).fit(represent(X, case["repr"])).evaluate(cuts))
+        obj = represent(X, case["repr"])
+        got = np.asarray(K.build(case["scorer"]).fit(obj).evaluate(cuts))
+    check_caller_index(obj, case["repr"], len(X), "scorer.fit")
     Xa = np.asarray(X, dtype=float)
     magnitude = K.score_magnitude(case["scorer"], Xa, len(Xa))  # rounding of prefix sums is relative to this
     if want.shape != got.shape or not np.allclose(want, got, rtol=1e-9, atol=1e-9 * (1 + np.abs(want).max() + magnitude)):
@@ -267,8 +311,8 @@ def check_scorer(case):
 def det_facet(det, nq, nt):
     return Facet(name=det, check=check, strategy=lambda tier, d=det: cases(tier, d),
                  rule=(f"{det}: for each entry point separately (fit, update, predict, transform, transform_scores) a representation "
-                       "from {2-D/1-D ndarray, Series, DataFrame} x {float64, int64 for integral data} x {7 index kinds} x "
-                       "{default, string columns}; compared with the canonical float64 default-index DataFrame run; "
+                       "from {2-D/1-D ndarray, Series, DataFrame} x {float64, int64 for integral data} x {9 index kinds incl. repeated time stamps, optionally named} x "
+                       "{8 kinds of column labels}; compared with the canonical float64 default-index DataFrame run; "
                        "non-trivial = some non-canonical representation and >= 1 detection"),
                  n_quick=nq, n_thorough=nt, shards_quick=2, shards_thorough=8)
 
